@@ -11,7 +11,7 @@ from ..interp import Pins, find_nodes, unparse
 from ..model import AnalysisError
 from .util import effect_table, enclosing_loop, enclosing_stmt, enum_members, every_iteration_reaches, fmt, inline_displays, is_const, parent, returns_of, same, single_def
 
-P = ("C05", "C01", "C06")
+P = ("C05", "C01", "C06", "C08", "C09", "C10", "C11", "C12", "C13", "C14", "C15", "C16")  # pre- and postprocess are part of optimize(P, only <pass>) for every pass
 OPS = ["Equal", "NotEqual", "GreaterEqual", "LessEqual", "GreaterThan", "LessThan"]
 NEG = {"Equal": "NotEqual", "NotEqual": "Equal", "GreaterEqual": "LessThan", "LessEqual": "GreaterThan", "GreaterThan": "LessEqual", "LessThan": "GreaterEqual"}
 CONV = {"Equal": "Equal", "NotEqual": "NotEqual", "GreaterEqual": "LessEqual", "LessEqual": "GreaterEqual", "GreaterThan": "LessThan", "LessThan": "GreaterThan"}
@@ -406,6 +406,6 @@ RULES = RULES_EXTRA + [
     Rule("C05.C4.local-only", P, r_local_only),
     Rule("C05.C6.inline-rule", P + ("C02",), r_inline_rule),
     Rule("C05.aggregate-conversion", P, r_aggregate_conversion),
-    Rule("C05.exline", P + ("C04",), r_exline),
-    Rule("C05.C.replace-assignments", ("C10", "C11", "C01"), r_replace_assignments),
+    Rule("C05.exline", P + ("C04",), r_exline, extra={"C03": ("normal form pipeline",)}),
+    Rule("C05.C.replace-assignments", ("C10", "C11", "C01", "C04"), r_replace_assignments),
 ]
